@@ -159,10 +159,10 @@ def build(cfg, values=None):
 def configs(tier, seed):
     out = []
     quick = tier == 'quick'
-    pairs = [(2, 2), (3, 1), (1, 3), (4, 1), (1, 5)] if quick else [(1, 1), (2, 2), (3, 2), (2, 3), (3, 3), (4, 4), (5, 6)]
+    pairs = [(2, 2), (3, 1), (1, 3), (4, 1), (1, 5)] if quick else [(1, 1), (2, 2), (3, 2), (2, 3), (3, 3), (4, 4), (5, 6), (8, 7), (12, 3), (3, 12)]
     for model in MODELS:
         for (m, n) in pairs:
-            if model == 'kpanel' and m * n > (4 if quick else 9):
+            if model == 'kpanel' and m * n > (4 if quick else 16):
                 continue
             out.append({'model': model, 'm': m, 'n': n, 'variant': 'full', 'group': 'kM:%s' % model})
         out.append({'model': model, 'm': 2, 'n': 2, 'variant': 'y1y2', 'group': 'kMy1y2:%s' % model})
